@@ -114,6 +114,12 @@ reg('C08',
     'q, qd, j, jd, a_p, a_c are exactly the images of the reported x, xd. Velocities of prismatic/stacked joints are matched against the recorded known finding. Sampling, not proof.',
     'float64; supported-stack domain as stated by the property', 'DESIGN.md section 4 C08')
 
+reg('C12',
+    'property-based testing (Hypothesis model generator): metamorphic relation between runs at dt, dt/2, dt/4, dt/8 (Richardson extrapolation of the drift of conserved quantities to zero step size)',
+    'No counter-example among generated conservative models (springs allowed, arbitrary gravity, any hinge/slide stacks, exact inverse) x initial states: the drift of total mechanical '
+    'energy, and of linear momentum minus M g t for free-floating trees, over a fixed 0.064 s horizon halves with the step and extrapolates to zero (1e-5 relative). Sampling, not proof.',
+    'energy read through the state\'s own mass matrix; momentum through mass_mx @ qd on the root translation dofs', 'DESIGN.md section 4 C12')
+
 PENDING = {}
 
 
